@@ -12,6 +12,8 @@ func propC18(c *Ctx, r *Report) {
 	r.Clauses = append(r.Clauses, "sibling renumbering (E3): the functions of the DXIL emitter that rewrite emitter-local value ids to final ids in module.Instruction records (entry-point and helper-function finalisers, discovered as functions writing >= 3 common fields of Instruction / PhiIncoming) write the same set of fields - a field only one of them renumbers keeps stale ids on the other path, i.e. operands that refer to the wrong value")
 	c.runSiblingWriters(r, "siblings.fields", "dxil/internal/emit", []string{"Instruction", "PhiIncoming"}, 3, nil)
 	r.floor("siblings.dxil/internal/emit", 1)
+	r.Clauses = append(r.Clauses, enumMapClause+" - here: the semantic names and kinds of the signature / PSV parts, the program kind of the header and the component types of signature elements")
+	c.runEnumTables(r, "dxil")
 	r.Clauses = append(r.Clauses, "determinism (E6): every `range` over a Go map in the DXIL packages is order-insensitive or argued")
 	c.runMapOrder(r, "maporder", "dxil.mapranges", inPkgs("dxil"), mapOrderExceptions)
 	r.floor("dxil.mapranges", 20)
